@@ -224,7 +224,7 @@ def ensure_model(timeout=900):
 
 def ensure_reader(timeout=900):
     """Extract the reader's executable side (ExtractReader.v: fshow, file_okb, file_nodes, frun) and build its
-    driver (ocaml/rddriver.ml).  Separate from the main model: it needs Reader/*.vo, proofs included."""
+    driver (ocaml/rddriver.ml).  It needs Reader/Defs.vo and Reader/BridgeDefs.vo only (no proof, no generated file)."""
     h = hashlib.sha256()
     for root, _, files in sorted(os.walk(os.path.join(COQ, "theories"))):
         if os.path.basename(root) == "Properties":
@@ -244,10 +244,10 @@ def ensure_reader(timeout=900):
             if x.startswith("reader-"):
                 shutil.rmtree(os.path.join(BUILD, x), ignore_errors=True)
         os.makedirs(d, exist_ok=True)
-        ok, mlog = coq_make(target="theories/Reader/DecideFile.vo")
-        ok2, mlog2 = coq_make(target="theories/Reader/FileBridge.vo")
-        if not (ok and ok2):
-            raise RuntimeError("the reader part of the Coq development does not build, cannot extract it:\n" + (mlog + mlog2)[-3000:])
+        # definitions only (Reader/Defs.v, Reader/BridgeDefs.v): independent of the generated rule tree and of the proofs
+        ok, mlog = coq_make(target="theories/Reader/BridgeDefs.vo")
+        if not ok:
+            raise RuntimeError("the reader's definitions do not build, cannot extract them:\n" + mlog[-3000:])
         with Lock("coq"):
             run(["coqc", "-Q", os.path.join(COQ, "theories"), "PegV", os.path.join(COQ, "theories", "ExtractReader.v")],
                 cwd=d, timeout=timeout, check=True)
